@@ -1178,7 +1178,23 @@ int NinjaMain::ToolRestat(const Options* options, int argc, char* argv[]) {
     return EXIT_SUCCESS;
   }
 
-  bool success = build_log_.Restat(log_path, disk_interface_, argc, argv, &err);
+  // The log records canonical paths: canonicalize the arguments like every
+  // other tool does with its targets.
+  std::vector<std::string> outputs;
+  std::vector<char*> output_args;
+  for (int i = 0; i < argc; ++i) {
+    std::string path = argv[i];
+    if (!path.empty()) {
+      uint64_t slash_bits;
+      CanonicalizePath(&path, &slash_bits);
+    }
+    outputs.push_back(path);
+  }
+  for (size_t i = 0; i < outputs.size(); ++i)
+    output_args.push_back(&outputs[i][0]);
+
+  bool success = build_log_.Restat(log_path, disk_interface_, argc,
+                                   output_args.data(), &err);
   if (!success) {
     Error("failed recompaction: %s", err.c_str());
     return EXIT_FAILURE;
